@@ -200,10 +200,10 @@ def run(F, rep, tier, allfacts):
     sn, sf = F.find(r"^" + re.escape(OWN) + "::has_ownership_stack$", ["fuel_vm"], one=True)
     rep.saw(sn)
     cs = [(callee_name(c), [describe(sf, a) for a in args]) for i, c, args, *_ in calls(sf)]
-    s1 = any(n.endswith("ops::Range::<Idx>::contains") and a[1] == "arg:range.start" for n, a in cs) and any(
-        rv[0] == "agg" and rv[1] == "std::ops::Range" and [describe(sf, o) for o in rv[3]] == ["arg:self.ssp", "arg:self.sp"]
+    s1 = any(bool(re.search(r"ops::(range::)?Range::<Idx>::contains$", n)) and a[1] == "arg:range.start" for n, a in cs) and any(
+        rv[0] == "agg" and rv[1].endswith("ops::range::Range") and [describe(sf, o) for o in rv[3]] == ["arg:self.ssp", "arg:self.sp"]
         for i, j, p, rv, line in assignments(sf))
-    s2 = any(n.endswith("RangeInclusive::<Idx>::contains") and a[0] == "call:new(arg:self.ssp,arg:self.sp)" and a[1] == "arg:range.end" for n, a in cs)
+    s2 = any(bool(re.search(r"RangeInclusive::<Idx>::contains$", n)) and a[0] == "call:new(arg:self.ssp,arg:self.sp)" and a[1] == "arg:range.end" for n, a in cs)
     alt = {}
     for g in guards(sf):
         for nm, (x, y) in {"start-ssp": (r"^arg:range\.start$", r"^arg:self\.ssp$"), "start-sp": (r"^arg:range\.start$", r"^arg:self\.sp$"),
@@ -250,7 +250,7 @@ def run(F, rep, tier, allfacts):
                 if not f:
                     continue
                 for i, j, p, rv, line in assignments(f):
-                    if rv[0] == "agg" and rv[1] == "fuel_tx::PanicReason":
+                    if rv[0] == "agg" and rv[1].endswith("::PanicReason"):
                         rs.add(rv[2])
             cache[n] = rs
         return cache[n]
